@@ -72,7 +72,8 @@ traces = [(k, evs) for k, (label, evs) in enumerate(variants)]
 fails, stats = core.validate_traces('Trace_JsonRoundTrip', 'Trace', traces, shards=4)
 by = {}
 for tid, idx, clause in fails:
-    by.setdefault(tid, set()).add(clause)
+    if not clause.startswith('~'):           # '~judged:N' is the spec's vacuity counter
+        by.setdefault(tid, set()).add(clause)
 base = by.get(0, set())
 print('recorded lifecycle: %d lines; clauses failing on the unchanged record: %s' % (len(events), sorted(base) or 'none'))
 for k, (label, evs) in enumerate(variants[1:], start=1):
